@@ -115,6 +115,7 @@ EXTRA = {
 }
 # additions made during the third round of seeded changes
 EXTRA3 = {
+ "C19": " With a configured request handler the handler may lose one request with a connection error (EOF) at a drawn request kind: it passed the before-request function once and reaches no server, and nothing is sent past the function afterwards (the three logs still agree). A legacy client's first connect GET may be refused with 503 and the handshake repeated under another context: the second connect carries the second handshake's context values.",
  "C17": " The outcome pools hold every assigned 5xx code and 30 more 4xx codes individually. TestC17TCP: over real loopback TCP (net/http's keep-alive transport, 0-2 warm-up calls) the front reads each attempt completely and then closes / resets the connection before any response byte, answers 503 / 429 / 404, or serves it: the attempts counted at the server are exactly the model's (one more after every transient fate, at most MaxRetries+1, one without a retry option) and equal the observed waits + 1.",
  "C15": " A middleware kind hands a new request object (deep copy with modified arguments) to the next stage instead of mutating in place.",
  "C16": " Bursts of 2-16 concurrent handshakes asking for different (supported and unsupported) versions, 1-60 rounds each: every answer is judged against its own request. The stdio child may be killed behind the client's back before Close.",
